@@ -1,5 +1,5 @@
 """Lock-step scheduling of forked actor processes at file-system-call granularity (C12), and a variant
-of the interposer that also hooks the *stat* family (os.stat / os.lstat, hence os.path.isdir / isfile /
+of the interposer that also hooks os.scandir(path) and the *stat* family (os.stat / os.lstat, hence os.path.isdir / isfile /
 exists / islink) as non-mutating, schedulable calls.
 
 ``StatInterposer`` extends :class:`harness.interpose.Interposer` (owned by the doc-builder; not edited):
@@ -68,13 +68,31 @@ class StatInterposer(Interposer):
                 return res
             return patched
 
-        self._stat_saved = (os.stat, os.lstat)
+        def mk_scandir(orig):
+            # os.scandir(<path>) (shutil.copytree): a directory listing, traced and injectable like os.listdir;
+            # os.scandir(<fd>) (shutil.rmtree's descriptor-based walk) is left alone
+            def patched(path=".", *args, **kw):
+                if not ip.active or ip._guard or not ip.observe_reads or isinstance(path, int):
+                    return orig(path, *args, **kw)
+                rel = ip._rel(path)
+                if rel is None or getattr(ip._in_hook, "on", False) or _from_interposer():
+                    return orig(path, *args, **kw)
+                k = ip._pre("listdir", rel, None)
+                try:
+                    res = orig(path, *args, **kw)
+                finally:
+                    ip._post(Op(k, "listdir", rel))
+                return res
+            return patched
+
+        self._stat_saved = (os.stat, os.lstat, os.scandir)
         os.stat = mk(os.stat, True)
         os.lstat = mk(os.lstat, False)
+        os.scandir = mk_scandir(os.scandir)
         return self
 
     def __exit__(self, *exc):
-        os.stat, os.lstat = self._stat_saved
+        os.stat, os.lstat, os.scandir = self._stat_saved
         return super().__exit__(*exc)
 
 
